@@ -1085,11 +1085,12 @@ def gen_RX(seed, thorough):
 RV_SOURCES = ["Substructure", "CartesianGeometry(sub)", "Structure(sub)", "Molecule(sub)", "Conformer", "Molecule(conformer)"]
 
 
-def check_xyz_views(ctx, atoms, frames, idx):
+def check_xyz_views(ctx, atoms, frames, idx, pedit=None):
     """atoms/frames: the parent (k frames; frame 0 for Substructure sources, every frame for the Conformer sources); idx: index list"""
     tmp = Path(ctx.scratch) / f"c08-{os.getpid()}-v.xyz"
     tmpw = Path(ctx.scratch) / f"c08-{os.getpid()}-vw.xyz"
-    case = {"layer": "RV", "atoms": [list(a) for a in atoms], "frames": frames, "idx": list(idx)}
+    case = {"layer": "RV", "atoms": [list(a) for a in atoms], "frames": frames, "idx": list(idx), "pedit": pedit}
+    ptag = "after[parent-edited]|" if pedit else ""
     order = "ascending" if list(idx) == sorted(idx) else ("reversed" if list(idx) == sorted(idx, reverse=True) else "shuffled")
     ctx.count(evaluations=1, states=1, traces=1)
     ctx.nontrivial(("RV", digest(case)))
@@ -1097,6 +1098,8 @@ def check_xyz_views(ctx, atoms, frames, idx):
     texts_all = []
     for src in RV_SOURCES:
         objs = []  # (object, expected pseudo-spec)
+        if pedit and src in ("Conformer", "Molecule(conformer)"):
+            continue
         try:
             if src in ("Conformer", "Molecule(conformer)"):
                 ens, ref, _h = build(mkspec("E", "parent", atoms, frames))
@@ -1106,6 +1109,12 @@ def check_xyz_views(ctx, atoms, frames, idx):
             else:
                 parent, ref, _h = build(mkspec("S", "parent", atoms, frames[:1]))
                 sub = parent.substructure(list(idx))
+                if pedit:
+                    # the PARENT is edited after the view was made; every member atom keeps its own coordinates
+                    if pedit[0] == "del":
+                        parent.del_atom(parent.atoms[pedit[1]])
+                    else:
+                        parent.add_atom(Atom(Element(17)), [9.5, -9.5, 0.5])
                 o = {"Substructure": lambda: sub, "CartesianGeometry(sub)": lambda: CartesianGeometry(sub), "Structure(sub)": lambda: Structure(sub), "Molecule(sub)": lambda: Molecule(sub)}[src]()
                 objs.append((o, {"kind": "S", "atoms": [list(atoms[i]) for i in idx], "frames": [[ref[0][i] for i in idx]]}))
         except UnderTestDeviation as e:
@@ -1158,13 +1167,13 @@ def check_xyz_views(ctx, atoms, frames, idx):
 
     for sym in sorted(wcells):
         for gs, gw in product_groups(wcells[sym], 2):
-            ctx.violation(f"rt-view|order={order}|{sym}|src={sdesc(gs)}|w={_desc([w for w in gw if w != '-'], WRITERS) or '-'}", f"{gs[0]} over atoms {list(idx)}: {detail[sym]}", case)
+            ctx.violation(f"rt-view|{ptag}order={order}|{sym}|src={sdesc(gs)}|w={_desc([w for w in gw if w != '-'], WRITERS) or '-'}", f"{gs[0]} over atoms {list(idx)}: {detail[sym]}", case)
     for sym in sorted(cells):
         for gs, gw, gr in product_groups(cells[sym], 3):
             # the index order only matters for the Substructure family
             o = order if any(x in RV_SOURCES[:4] for x in gs) else "-"
             ctx.violation(
-                f"rt-view|order={o}|{sym}|src={sdesc(gs)}|w={_desc(gw, WRITERS)}|r={_desc(gr, XYZ_READERS)}",
+                f"rt-view|{ptag}order={o}|{sym}|src={sdesc(gs)}|w={_desc(gw, WRITERS)}|r={_desc(gr, XYZ_READERS)}",
                 f"{gs[0]} over atoms {list(idx)} written by {gw[0]}, read by {gr[0]}: {detail[sym]}",
                 case,
                 repro=(
@@ -1184,7 +1193,12 @@ def gen_RV(seed, thorough):
     if thorough:
         lists += [list(p) for p in itertools.permutations(range(5), 3)]
     for idx in rot(lists, seed):
-        yield atoms, [f0, f1], idx
+        yield atoms, [f0, f1], idx, None
+    # history: the parent is edited AFTER the view was made (a non-member atom before / between / after the members is deleted, an atom is added)
+    for idx in rot(lists[:8], seed):
+        for x in [x for x in range(5) if x not in idx]:
+            yield atoms, [f0, f1], idx, ["del", x]
+        yield atoms, [f0, f1], idx, ["add"]
 
 
 # =================================================================================================
@@ -1461,10 +1475,10 @@ def _part_inner(ctx, part):
                 ctx.sample({"layer": layer, "gspec": g})
         return
     if layer == "RV":
-        for idx, (atoms, frames, ilist) in enumerate(gen_RV(seed, thorough)):
+        for idx, (atoms, frames, ilist, pedit) in enumerate(gen_RV(seed, thorough)):
             if idx % nparts != i:
                 continue
-            check_xyz_views(ctx, atoms, frames, ilist)
+            check_xyz_views(ctx, atoms, frames, ilist, pedit)
             ctx.add_note("cases_RV")
         return
     if layer == "RS":
@@ -1614,7 +1628,7 @@ def replay(ctx, case):
     if case["layer"] == "RT":
         check_geom(ctx, normspec(case["gspec"]), kinds=case.get("kinds"), edit=case.get("edit"), name_tag=bool(case.get("name_tag")))
     elif case["layer"] == "RV":
-        check_xyz_views(ctx, [(int(a[0]), int(a[1])) for a in case["atoms"]], [[[fl(c) for c in p] for p in f] for f in case["frames"]], [int(x) for x in case["idx"]])
+        check_xyz_views(ctx, [(int(a[0]), int(a[1])) for a in case["atoms"]], [[[fl(c) for c in p] for p in f] for f in case["frames"]], [int(x) for x in case["idx"]], case.get("pedit"))
     elif case["layer"] == "RS":
         check_spellings(ctx, [int(z) for z in case["zs"]], case["mode"])
     elif case["layer"] == "RF":
